@@ -1,6 +1,7 @@
 """C05 -- representations are word homomorphisms (U1, HAD, INV, FOLD, CONJ, DU, W1)."""
 from ..rules import rep_rules as R
-from ..rules.common import u1
+from ..rules import cache_rules as CA
+from ..rules.common import u1, n1
 
 REP = R.REP
 ENTRIES = [(REP, "Representation." + m) for m in (
@@ -24,6 +25,8 @@ def run(ctx):
     R.rule_had(ctx)
     R.rule_rep_structure(ctx)
     R.rule_w1(ctx)
+    n1(ctx, ["geometry_tools/representation.py"])
+    CA.rule_c2(ctx, "Representation")
     u1(ctx, ENTRIES, min_functions=30)
     ctx.r.assume("the homomorphism law over all words and matrices, free "
                  "reduction and the Fox fundamental formula are numerical / "
